@@ -628,7 +628,8 @@ impl PartialEq<Self> for XType {
                     && a.params
                         .iter()
                         .zip(b.params.iter())
-                        .all(|(a, b)| a.type_.eq(&b.type_))
+                        .all(|(a, b)| a.type_.eq(&b.type_) && a.required == b.required)
+                    && a.ret.eq(&b.ret)
             }
             (Self::XCallable(ref a), Self::XFunc(ref b)) => {
                 b.generic_params.is_none()
